@@ -54,6 +54,7 @@ DefStream ==
      mustRefuse |-> FALSE,
      overAtOpen |-> FALSE,  \* the HEADERS frame that opens the stream arrived beyond the limit (the duty to refuse starts when its header block is complete)
      hdrPending |-> FALSE,  \* send_request accepted, HEADERS not yet on the wire
+     preGo |-> FALSE,       \* ... and that was so when a GOAWAY arrived: the request was submitted before the GOAWAY
      inAfterRst |-> FALSE,  \* a DATA/HEADERS frame of the peer was handed to E after E's RST_STREAM (it raced with it)
      wantBeforeOpen |-> FALSE, \* the application reset the stream before its HEADERS were on the wire
      peerBad |-> FALSE,     \* the peer sent stream frames after its own RST_STREAM (its violation; E may react)
@@ -61,6 +62,7 @@ DefStream ==
      parent |-> 0,          \* stream on which this stream was promised (PUSH_PROMISE received)
      pushHold |-> FALSE,    \* the application holds a PushPromises handle of this stream
      blocksIn |-> 0, infoIn |-> 0,   \* complete header blocks received / of which informational (1xx) responses
+     sfq |-> <<>>,            \* framing-overhead cost of each DATA frame handed to E and not yet read by the application (FIFO)
      inSinceDrop |-> 0,       \* frames handed to E since the application's latest handle drop on this stream
      inSince |-> 0, inNeed |-> 2]  \* frames handed to E since the cause of a reset (the application's call, else the stream's
                             \* first frame); >= inNeed of them means some raced with E's RST_STREAM still sitting in its codec
@@ -80,6 +82,9 @@ Init(role, cfg) ==
      maxLocal |-> 0, maxPeer |-> 0, maxSurfaced |-> 0,
      cw |-> 65535, rcw |-> 65535, czeroed |-> FALSE,
      maxTarget |-> Max(65535, cfg.conn_win),
+     sfOut |-> 0,            \* sum of the costs in all sfq (upper bound of what h2's DATA-frame budget can have outstanding)
+     sfLost |-> FALSE,       \* the bookkeeping above was given up (more than SfCap frames unread on one stream)
+     goOutCode |-> 0,        \* code of the latest GOAWAY E wrote with a code other than NO_ERROR (0: none)
      goOut |-> -1, goOutN |-> 0, goIn |-> -1, goInBound |-> FALSE, goInCode |-> 0,
      wblocked |-> FALSE,
      hdrIn |-> 0,            \* stream whose received header block awaits CONTINUATION
@@ -89,10 +94,15 @@ Init(role, cfg) ==
      inCount |-> 0,          \* frames E has read
      batchStart |-> 0,       \* inCount before the latest transport read (E may be reacting to any frame of the latest batch)
      gracefulReq |-> FALSE,  \* the application asked for a graceful shutdown (the endpoint goes on processing frames)
+     upReq |-> FALSE,        \* send_ping() was accepted and no PING has been written since
+     upSeen |-> FALSE,       \* send_ping() was accepted at least once
      myPings |-> <<>>,       \* payloads of the PINGs E sent that the peer has not acknowledged yet
      connWhy |-> "",         \* what made the first connection error of the peer
      lastStreamIllegal |-> -1,   \* inCount of the latest frame that was a stream error (or completed a malformed prefix)
      v |-> <<>>, hits |-> EmptyMap]
+
+SmallData == 256   \* h2: DEFAULT_DATA_FRAME_OVERHEAD_THRESHOLD
+SfCap == 400       \* unread frames tracked per stream
 
 S(m, s) == Get(m.st, s, DefStream)
 SetS(m, s, r) == [m EXCEPT !.st = Put(m.st, s, r)]
@@ -219,7 +229,7 @@ OutAcks(m, f, l) ==
     THEN IF m.pongs = <<>> \/ Head(m.pongs) # f.pl
          THEN Viol(Hit(m, "C14.pong"), "C14.pong", l, 0, "PING ACK unsolicited or out of order")
          ELSE [Hit(m, "C14.pong") EXCEPT !.pongs = Tail(m.pongs)]
-    ELSE IF f.ty = "PING" THEN [m EXCEPT !.myPings = Append(m.myPings, f.pl)]
+    ELSE IF f.ty = "PING" THEN [m EXCEPT !.myPings = Append(m.myPings, f.pl), !.upReq = FALSE]
     ELSE IF f.ty = "PUSH_PROMISE"
     THEN Check(m, "C14.push_disabled", m.pa.push # 0, l, f.sid, "PUSH_PROMISE after acknowledging ENABLE_PUSH=0")
     ELSE m
@@ -285,8 +295,14 @@ OutResets(m, f, l) ==
     THEN LET m1 == IF m.goOut >= 0
                    THEN Check(m, "C15.goaway_monotone", f.last <= m.goOut, l, 0, <<m.goOut, f.last>>)
                    ELSE m
-             m2 == Check(m1, "C15.goaway_covers_surfaced", f.last >= m.maxSurfaced, l, 0, <<f.last, m.maxSurfaced>>)
+             m2a == Check(m1, "C15.goaway_covers_surfaced", f.last >= m.maxSurfaced, l, 0, <<f.last, m.maxSurfaced>>)
+             \* giving up on the peer for "too many small DATA frames" is justified only when the overhead of the frames the
+             \* application has not read yet exceeds the configured budget (frames it has read gave their share back)
+             m2 == IF f.ch = 0 /\ f.cl = ENHANCE_YOUR_CALM /\ f.dbgs = "too_many_data_frames"
+                   THEN Check(m2a, "C09.data_budget", m.sfLost \/ m.sfOut > m.cfg.data_frame_budget, l, 0, <<m.sfOut, m.cfg.data_frame_budget>>)
+                   ELSE m2a
          IN [m2 EXCEPT !.goOut = f.last, !.goOutN = m.goOutN + 1,
+                       !.goOutCode = IF (f.ch # 0 \/ f.cl # 0) /\ f.ch < 32768 THEN Code(f) ELSE m.goOutCode,
                        !.dead = m.dead \/ f.ch # 0 \/ f.cl # 0, !.err = m.err \/ f.ch # 0 \/ f.cl # 0]
     ELSE m
 
@@ -294,7 +310,9 @@ OutResets(m, f, l) ==
 OutAfterGoAway(m, f, l) ==
     LET s == f.sid
         x == S(m, s)
-    IN IF f.ty = "HEADERS" /\ LocallyInit(m, s) /\ x.o = "idle" /\ m.goInBound
+    \* (a request the application had submitted before the GOAWAY arrived, not above its last-stream-id, is in flight, not new:
+    \*  the two-step graceful shutdown - GOAWAY(2^31-1) first - exists so that such requests are still served)
+    IN IF f.ty = "HEADERS" /\ LocallyInit(m, s) /\ x.o = "idle" /\ m.goInBound /\ ~(x.preGo /\ s <= m.goIn)
        THEN Viol(Hit(m, "C15.no_new_after_goaway_in"), "C15.no_new_after_goaway_in", l, s, "new stream after received GOAWAY")
        ELSE IF f.ty \in {"HEADERS", "DATA"} /\ ~LocallyInit(m, s) /\ s # 0 /\ m.goOut >= 0 /\ s > m.goOut /\ f.ty # "RST_STREAM"
        THEN Viol(Hit(m, "C15.no_response_above_goaway"), "C15.no_response_above_goaway", l, s, "response frames on a stream above the GOAWAY sent")
@@ -433,7 +451,8 @@ StepQf(m, e, l) ==
     ELSE
     LET errGoAway == m.goOutN > 0 /\ m.err
         m1 == IF m.mustConn /\ ~m.killed THEN Check(m, "C09.conn_error", errGoAway, l, 0, <<"connection error of the peer not answered by GOAWAY", m.connWhy>>) ELSE m
-        unanswered == {s \in m.mustStream : S(m, s).rstOut = 0}
+        \* (a stream the peer reset itself before E's RST_STREAM was written needs no answer any more)
+        unanswered == {s \in m.mustStream : S(m, s).rstOut = 0 /\ S(m, s).i # "rst"}
         m2 == IF m.mustStream # {} /\ ~m.mustConn /\ ~m.killed
               THEN Check(m1, "C09.stream_error", unanswered = {} \/ errGoAway, l, 0, unanswered)
               ELSE m1
@@ -444,13 +463,18 @@ StepQf(m, e, l) ==
 StepIn(m, f, l) ==
     LET s  == f.sid
         x0 == S(m, s)
+        \* C09.data_budget: what a small, non-final DATA frame costs against E's configured DATA-frame budget until it is read
+        cost == IF f.ty = "DATA" /\ f.bad = "" /\ ~f.es /\ f.dlen > 0 /\ f.dlen < SmallData THEN SmallData - f.dlen ELSE 0
+        track == f.ty = "DATA" /\ f.bad = "" /\ s # 0 /\ ~m.sfLost
         x  == [x0 EXCEPT !.inAny = TRUE, !.inSince = x0.inSince + 1, !.inSinceDrop = x0.inSinceDrop + 1,
+                         !.sfq = IF track /\ Len(x0.sfq) < SfCap THEN Append(x0.sfq, cost) ELSE x0.sfq,
                          !.hdrsIn = x0.hdrsIn + (IF f.ty = "HEADERS" THEN 1 ELSE 0),
                          !.peerBad = x0.peerBad \/ (x0.i = "rst" /\ f.ty \in {"DATA", "HEADERS", "CONTINUATION", "PUSH_PROMISE"}),
                          !.inAfterRst = x0.inAfterRst \/ (x0.rstOut > 0 /\ f.ty \in {"DATA", "HEADERS", "CONTINUATION", "WINDOW_UPDATE"})]
         ty == f.ty
         ok == f.bad = ""
-        mm == IF s # 0 THEN SetS(m, s, x) ELSE m
+        mm0 == IF s # 0 THEN SetS(m, s, x) ELSE m
+        mm == IF track THEN (IF Len(x0.sfq) < SfCap THEN [mm0 EXCEPT !.sfOut = m.sfOut + cost] ELSE [mm0 EXCEPT !.sfLost = TRUE]) ELSE mm0
     IN
     IF ty = "SETTINGS" /\ ok /\ ~f.ack THEN [mm EXCEPT !.owed = Append(m.owed, f.set)]
     ELSE IF ty = "SETTINGS" /\ ok /\ f.ack
@@ -492,6 +516,7 @@ StepIn(m, f, l) ==
     THEN [mm EXCEPT !.goIn = IF m.goIn < 0 THEN f.last ELSE Min(m.goIn, f.last),
                     !.goInCode = f.cl,
                     !.dead = m.dead \/ f.ch # 0 \/ f.cl # 0, !.err = m.err \/ f.ch # 0 \/ f.cl # 0,
+                    !.st = [y \in DOMAIN mm.st |-> IF mm.st[y].hdrPending /\ mm.st[y].o = "idle" THEN [mm.st[y] EXCEPT !.preGo = TRUE] ELSE mm.st[y]],
                     !.pend = Append(m.pend, [k |-> "goaway", sid |-> f.last, stage |-> 0])]
     ELSE IF ~ok THEN [mm EXCEPT !.tainted = TRUE]
     ELSE mm
@@ -545,6 +570,9 @@ StepApi(m, e, l) ==
                               !.rdead = TRUE])
     ELSE IF c = "send_request" /\ e.res = "ok"
     THEN SetS(m, s, [x EXCEPT !.hdrPending = TRUE, !.apiEos = e.eos, !.surfaced = TRUE])
+    ELSE IF c = "send_response" /\ e.res = "ok" /\ LocallyInit(m, s) /\ x.o \notin {"rst", "es"} /\ ~x.fin
+    THEN \* the response that opens a pushed stream: like a request, its HEADERS precede a reset the application asks for meanwhile
+         SetS(m, s, [x EXCEPT !.hdrPending = TRUE, !.apiEos = x.apiEos \/ e.eos])
     ELSE IF c \in {"send_response", "send_data"} /\ e.res = "ok" /\ e.eos
     THEN SetS(m, s, [x EXCEPT !.apiEos = TRUE])
     ELSE IF c = "send_trailers" /\ e.res = "ok"
@@ -559,7 +587,10 @@ StepApi(m, e, l) ==
     ELSE IF c = "poll_push" /\ e.res = "some"
     THEN SetS(m, e.psid, [S(m, e.psid) EXCEPT !.surfaced = TRUE])
     ELSE IF c = "poll_data" /\ e.res = "some"
-    THEN SetS(m, s, [x EXCEPT !.dlv = x.dlv + e.n])
+    THEN \* one call hands over one frame: its cost is given back
+         IF x.sfq # <<>>
+         THEN [SetS(m, s, [x EXCEPT !.dlv = x.dlv + e.n, !.sfq = Tail(x.sfq)]) EXCEPT !.sfOut = m.sfOut - Head(x.sfq)]
+         ELSE SetS(m, s, [x EXCEPT !.dlv = x.dlv + e.n])
     ELSE IF c = "release" /\ e.res = "ok"
     THEN SetS(m, s, [x EXCEPT !.rel = x.rel + e.n])
     ELSE IF c \in {"poll_data", "poll_trailers", "poll_response"} /\ e.res = "err"
@@ -570,10 +601,12 @@ StepApi(m, e, l) ==
     THEN SetS(m, s, [x EXCEPT !.respDrop = TRUE, !.rdead = TRUE, !.recvDrop = TRUE, !.inSinceDrop = 0])
     ELSE IF c = "drop_send"
     THEN SetS(m, s, [x EXCEPT !.sendDrop = TRUE, !.inSinceDrop = 0])
+    ELSE IF c = "send_ping" /\ e.res = "ok" THEN [m EXCEPT !.upReq = TRUE, !.upSeen = TRUE]
     ELSE IF c = "hold_push" THEN SetS(m, s, [x EXCEPT !.pushHold = TRUE])
     ELSE IF c = "drop_push" THEN SetS(m, s, [x EXCEPT !.pushHold = FALSE])
     ELSE IF c = "set_target_window" THEN [m EXCEPT !.maxTarget = Max(m.maxTarget, e.v)]
-    ELSE IF c = "set_initial_window" /\ e.res = "ok"
+    ELSE IF c = "set_initial_window" /\ e.res = "ok" /\ ~m.tainted   \* (a peer that acknowledges SETTINGS it was never sent - they may sit
+                                                                   \*  in E's write buffer - voids the ack accounting: not judged)
     THEN Check(m, "C14.local_settings_pending", m.sentSet = <<>>, l, 0, "second local SETTINGS accepted while one is unacknowledged")
     ELSE IF c = "conn_poll" /\ e.res \in {"ok", "err"} THEN [m EXCEPT !.ended = TRUE, !.err = m.err \/ e.res = "err"]
     ELSE IF c = "conn_drop" THEN [m EXCEPT !.ended = TRUE, !.err = TRUE, !.killed = TRUE]
@@ -632,7 +665,12 @@ StepQ(m, e, l) ==
         m5 == IF \E s \in DOMAIN m.st : m.st[s].mustRefuse
               THEN Check(m4, "C05.refuse", unrefused = {}, l, 0, unrefused)
               ELSE m4
-    IN m5
+        \* C06: the ping handle gives the connection task work and must wake it: at a quiescence (every woken task has run,
+        \* the socket is writable) an accepted user ping is on the wire
+        m6 == IF m.upSeen
+              THEN Check(m5, "C06.ping_written", ~m.upReq, l, 0, "send_ping() accepted, connection idle, PING never written")
+              ELSE m5
+    IN m6
 
 \* stream window exhaustion flag (set on DATA in, needs the advertised base)
 MarkZeroed(m, f) ==
